@@ -298,6 +298,12 @@ def gen_payload(rng, pl, idx):
         [0, 0, small()],
         [small(), 0],
     ]
+    if rng.random() < 0.15:
+        # the same FILE NAME in two directories; the later files start on a piece boundary and consist of whole pieces
+        k = rng.choice([1, 2, 3])
+        tree = {("00_disc1", "track.bin"): rng.randbytes(k * pl), ("00_disc1", "cover.jpg"): rng.randbytes(pl),
+                ("50_disc2", "cover.jpg"): rng.randbytes(pl), ("50_disc2", "track.bin"): rng.randbytes(rng.choice([pl, 2 * pl, 777]))}
+        return f"tor{idx}", False, tree, {"nested", "structured layout", "same file name in two directories, whole-piece files"}
     sizes = rng.choice(templates)
     grouping = rng.choice(["flat", "one-dir", "two-dirs", "deep"])
     tree = {}
@@ -472,6 +478,14 @@ def gen_case(case_seed, profile, workdir, force_mode=None):
         else:
             kind = rng.choice(ALL_KINDS + ["v1", "ref1"])
         name, single, tree, pcl = gen_payload(rng, pl, i)
+        if profile == "samename":
+            # aimed: the same FILE NAME in two directories; the later files start on a piece boundary and are made of whole pieces
+            kind = rng.choice(["v1", "ref1"])
+            k = rng.choice([1, 2, 3])
+            name, single = f"tor{i}", False
+            tree = {("00_disc1", "cover.jpg"): rng.randbytes(pl), ("00_disc1", "track.bin"): rng.randbytes(k * pl),
+                    ("50_disc2", "cover.jpg"): rng.randbytes(pl), ("50_disc2", "track.bin"): rng.randbytes(rng.choice([pl, 2 * pl, 777]))}
+            pcl = {"nested", "structured layout", "same file name in two directories, whole-piece files"}
         if profile == "d28" and single:
             name, single, tree = f"tor{i}", False, {("00_a",): rng.randbytes(100), ("01_b",): rng.randbytes(pl + 200),
                                                      ("02_c",): rng.randbytes(300)}
